@@ -194,6 +194,11 @@ def comb3_count5():
     return cnt
 
 
+def comp_filter(n, b):
+    xs = [3 * u for u in range(1, n + 1) if u <= b]
+    return xs
+
+
 C = 'conformance/cases.py'
 def fill_table(n, s):
     t = [s]
@@ -235,6 +240,10 @@ def picks(n):
 
 
 CONTRACTS = {
+    # a comprehension over a range with an upper-bound filter is the comprehension over the shorter range
+    (C, 'comp_filter'): {'params': {'n': 'int', 'b': 'int'}, 'raises': {}, 'returns': 'intlist',
+                         'ensures': ['len(result) == max(0, min(n, b))',
+                                     'forall(lambda j: not (0 <= j and j < len(result)) or result[j] == 3 * (j + 1))']},
     # ... and none is missing: 5*4*3 = 60 arrangements, C(5,3) = 10 subsets
     (C, 'perm_count5'): {'params': {}, 'raises': {}, 'returns': 'int',
                          'loops': {0: {'nest': [{'counter': '_a', 'inv': ['cnt == _a * 12']},
